@@ -52,7 +52,7 @@ func pairFor(r *gen.Rand, combo int) (gen.PC, gen.PC) {
 
 // C02: Add, Subtract, Negate, MultByCofactor are the complete group law.
 func C02(c *Ctx) {
-	n := c.N(24000, 1000000)
+	n := c.N(72000, 1500000)
 	for i := int64(0); i < n; i++ {
 		if !c.Mine(i) {
 			continue
